@@ -320,7 +320,7 @@ RULES = [("default-limits", rule_default_limits), ("sources", rule_sources), ("h
          ("bench-clear", rule_bench_clear), ("no-race", rule_no_race)]
 # "the same search gives the same node count" needs the search to be alone: a `go` is refused while a search runs, and the
 # engine never forgets a running search (C10)
-RULES += engine.premise_rules("c10", ["handle-writers", "go-reaches-spawn"])
+RULES += engine.premise_rules("c10", ["one-at-a-time", "handle-writers", "go-reaches-spawn"])
 
 
 def run(tier):
